@@ -63,6 +63,7 @@ type Machine struct {
 	preemptAt   int             // -1: off; k: preempt before the k-th call instruction of spawned goroutines
 	preemptSeen int
 	preemptHit  bool
+	preemptEver bool                   // a preemption was armed at some point of this path (its outcome depends on a schedule)
 	fnSeen      map[*ssa.Function]bool // functions whose SSA body was executed on this path (evidence)
 	fmtOpaque   bool                   // fmt verbs render symbolic scalar/string operands as "?" (vsymFmtOpaque)
 	poolReuse   bool                   // sync.Pool.Get returns the most recently Put object (LIFO) instead of always missing
